@@ -1,0 +1,31 @@
+//go:build verif
+
+package blobpacked
+
+import (
+	"perkeep.org/pkg/blob"
+	"perkeep.org/pkg/blobserver"
+)
+
+// VerifSetMaxZipBlobSize sets the maximum size of the zip blobs written by the
+// blobpacked storage sto (its unexported forceMaxZipBlobSize; 0 restores the
+// default, constants.MaxBlobSize) and reports whether sto is a blobpacked
+// storage. Verification harnesses use it to get files packed into several
+// zips without uploading files of tens of megabytes.
+func VerifSetMaxZipBlobSize(sto blobserver.Storage, n int) bool {
+	s, ok := sto.(*storage)
+	if !ok {
+		return false
+	}
+	s.forceMaxZipBlobSize = n
+	return true
+}
+
+// VerifSetPackHooks installs observers for the packer's two size-estimate
+// events: sawTruncate is called with the blob named by the walk-back when a
+// written zip turned out larger than the limit and is retried, and
+// stopBeforeOverflowing when the estimate ends a zip early. Either may be nil.
+func VerifSetPackHooks(sawTruncate func(blob.Ref), stopBeforeOverflowing func()) {
+	testHookSawTruncate = sawTruncate
+	testHookStopBeforeOverflowing = stopBeforeOverflowing
+}
